@@ -70,8 +70,17 @@ Proof.
   destruct x as [[i ts] p]. simpl. apply (Hb i ts p). apply in_or_app. right. left. reflexivity.
 Qed.
 
+(** events due exactly at the duration are still eligible (the test is "later than") *)
+Theorem C04_event_at_duration_is_eligible :
+  forall (F : Type) (A : ArithOps F), OrderLaws A -> forall (c : kcfg F) (d : F),
+    k_duration c = Some d -> dur_ok A c d.
+Proof.
+  intros F A OL c d Hd. unfold dur_ok. rewrite Hd. rewrite (ltb_leb A OL), (leb_refl A OL). reflexivity.
+Qed.
+
 Print Assumptions C04_executed_within_bounds.
 Print Assumptions C04_done_iff.
 Print Assumptions C04_step_result.
 Print Assumptions C04_run_is_loop_while_not_done.
 Print Assumptions C04_clock_within_duration.
+Print Assumptions C04_event_at_duration_is_eligible.
